@@ -19,7 +19,7 @@ def sh(cmd, cwd=None, env=None):
 
 
 def main():
-    names = sys.argv[1:] or sorted(os.listdir(os.path.join(VERIF, 'seeded')))
+    names = sys.argv[1:] or sorted(n for n in os.listdir(os.path.join(VERIF, 'seeded')) if not n.startswith('_'))
     scratch = tempfile.mkdtemp(prefix='seedrun_')
     ev_backup = tempfile.mkdtemp(prefix='evidence_')
     shutil.copytree(os.path.join(VERIF, 'evidence'), os.path.join(ev_backup, 'evidence'))
